@@ -68,7 +68,7 @@ func convCLI(c *core.Ctx, stream string, idx int, k theory.Key, chain string) {
 	if len(chain) >= 2 && k.String() != "C" && passesEnharmonic(k, chain) {
 		c.Nontrivial(k.String() + ":" + chain)
 	}
-	if idx%4001 == 0 {
+	if c.WantSample() {
 		c.Sample(map[string]any{"cmd": fmt.Sprintf("info key conv --key %s -c %s", k, chain), "printed": got})
 	}
 }
